@@ -807,3 +807,7 @@ def run(ctx, rep):  # noqa: F811
     _old_run12(ctx, rep)
     rep.rule("R12.8", "initial sampling: the value stored for index k comes from the evaluation at interpolation.point(k)")
     r128(ctx, rep)
+    rep.rule("R12.9", "a trial point is generated inside the bounds, so the value recorded for it was measured at it and not at its projection (see C01 R1.2)")
+    from ..report import Renamed
+    from . import c01
+    c01.r12(ctx, Renamed(rep, to="R12.9"))
